@@ -29,6 +29,7 @@ use syn::*;
 
 mod inline;
 mod rename;
+mod desugar;
 mod limb;
 mod ops;
 
@@ -1573,6 +1574,7 @@ fn main() {
                 let key = format!("{}.{}", t.lean_ns, name);
                 if excluded.contains(&key) { report.insert(key, "skipped: the generated definition does not elaborate in Lean (ill-typed translation)".into()); continue; }
                 let mut m = m;
+                desugar::desugar_fn(&mut m);
                 if let Some(note) = locals.normalise(&key, &mut m) { report.insert(format!("renamed-locals:{}", key), note); }
                 match translate_fn(t, &m, "", None) {
                     Ok((text, params, arms)) => { found.insert(name.clone()); defs.push_str(&text); defs.push('\n'); report.insert(key, "translated".into()); emitted.push((t.lean_ns.to_string(), name, params, arms)); }
@@ -1600,6 +1602,7 @@ fn main() {
                 let key = format!("{}.{}", t.lean_ns, name);
                 if excluded.contains(&key) { report.insert(key, "skipped: the generated definition does not elaborate in Lean (ill-typed translation)".into()); continue; }
                 let mut m2 = m.clone();
+                desugar::desugar_fn(&mut m2);
                 if let Some(note) = locals.normalise(&key, &mut m2) { report.insert(format!("renamed-locals:{}", key), note); }
                 let m = &m2;
                 match translate_fn(t, m, &impl_assoc_err(im), impl_assoc_out(im).as_ref()) {
@@ -1620,6 +1623,7 @@ fn main() {
                 if !t.fns.contains(&name.as_str()) || found.contains(&name) || report.contains_key(&key) { continue; }
                 if excluded.contains(&key) { report.insert(key, "skipped: the generated definition does not elaborate in Lean (ill-typed translation)".into()); continue; }
                 let mut m = ImplItemFn { attrs: vec![], vis: Visibility::Inherited, defaultness: None, sig: tf.sig.clone(), block: body.clone() };
+                desugar::desugar_fn(&mut m);
                 if let Some(note) = locals.normalise(&key, &mut m) { report.insert(format!("renamed-locals:{}", key), note); }
                 match translate_fn(t, &m, "", None) {
                     Ok((text, params, arms)) => { found.insert(name.clone()); defs.push_str(&text); defs.push('\n'); report.insert(key, "translated".into()); emitted.push((t.lean_ns.to_string(), name, params, arms)); }
